@@ -36,7 +36,7 @@ PROPS = {
              views=('claimed', 'range', 'confirmed', 'winIds', 'totalClaimable'), coq=('Proofs/Claim.v',)),
     'C10': P('blacklist refunds in full and excludes; un-blacklist restores and frames',
              eps=('blacklist', 'refund', 'unblacklist', 'confirm'), cats=('status', 'bal'),
-             views=('blacklisted', 'confirmed', 'utStatus'), coq=('Proofs/Settle.v', 'Proofs/BlacklistInv.v', 'Proofs/BlacklistInvGt.v')),
+             views=('blacklisted', 'confirmed', 'utStatus'), coq=('Proofs/Settle.v', 'Proofs/BlacklistInv.v', 'Proofs/BlacklistInvGt.v', 'Proofs/BlacklistInvNft.v')),
     'C11': P('guarantees honoured with own tickets only', eps=('extra',), cats=('status', 'ret'), rng='eps',
              views=('winIds', 'utStatus', 'nrWinning'), coq=('Proofs/Guaranteed.v', 'Proofs/GuaranteedLoop.v', 'Proofs/Resume2.v', 'Proofs/Resume4.v', 'Proofs/SetupGt.v', 'Proofs/SetupNgt.v')),
     'C12': P('W + R = K through allocation / blacklist / un-blacklist; no wrap; leftovers',
